@@ -28,7 +28,7 @@ FEATURES = {
     "trail": ["none", "pos1", "pos2", "named", "str"],
     "lay": ["tight", "space", "nl", "nl0", "blockc", "linec", "tabs", "exotic"],
     "pre": ["bol", "indent", "brace", "semi", "arrow", "closure", "call", "stmt", "strlit", "charlit", "eq",
-            "uni_indent", "kw_return", "kw_break", "ident_comment"],
+            "uni_indent", "kw_return", "kw_break", "ident_comment", "in_format_arg", "in_macro_block"],
     "post": ["semi", "paren", "comma", "brace", "eof"],
     "ref": ["none", "valid", "nearmiss"],
     # layout between the macro name, the `!` and the opening bracket (same token sequence for rustc and for the grammar)
@@ -253,6 +253,9 @@ def pre_text(cls, rnd, eol):
         "eq": "    let unit = ",
         "uni_indent": rnd.choice(["    /* 世界 hé */ ", "    /** 世界 hé **/ ", "    /***/ /* é */ "]),
         # hazards
+        # nested in the arguments / body of another (unconfigured) macro invocation
+        "in_format_arg": '    println!("size {}", { ',
+        "in_macro_block": "    assert!(ready, \"not ready {}\", { ",
         "kw_return": "    return ",
         "kw_break": "    break ",
         "ident_comment": "    else_branch /* c */" + eol + "    ",
